@@ -178,16 +178,23 @@ def r3_verdict_derivation(run):
     fi = m.func(BK + "validate_signature")
     cfg = cfg_of(fi, m)
     rets = cfg.by_kind("return")
-    ok = len(rets) == 1 and unparse(rets[0].ast.value) == \
-        "parse_xmlsec_output(stderr)"
-    run.check(ok, "R3", fi.qual + "::returns",
-              "returns parse_xmlsec_output(stderr)",
-              "validate_signature returns %s" %
-              [unparse(r.ast.value) for r in rets], fi.loc())
     st = [s for s in walk_no_nested(fi.node) if isinstance(s, ast.Assign) and
           isinstance(s.targets[0], ast.Tuple) and
           isinstance(s.value, ast.Call) and call_name(s.value) == "_run_xmlsec"]
-    ok = len(st) == 1 and unparse(st[0].targets[0].elts[1]) == "stderr"
+    # the name the tool's stderr is bound to: second element of the result
+    ename = unparse(st[0].targets[0].elts[1]) if len(st) == 1 and \
+        len(st[0].targets[0].elts) == 3 else None
+    ok = len(rets) == 1 and ename is not None and \
+        cfg.itext(rets[0].ast.value, rets[0].id) == \
+        "parse_xmlsec_output(%s)" % ename
+    run.check(ok, "R3", fi.qual + "::returns",
+              "returns parse_xmlsec_output(<stderr of the tool>)",
+              "validate_signature returns %s" %
+              [unparse(r.ast.value) for r in rets], fi.loc())
+    ok = ename is not None and \
+        {d.node for d in cfg.rd.reaching(ename, rets[0].id)} == \
+        {cfg.node_of_stmt(st[0]).id} if rets and ename and \
+        cfg.node_of_stmt(st[0]) is not None else False
     run.check(ok, "R3", fi.qual + "::stderr",
               "stderr is the second element of _run_xmlsec's result",
               "stderr is taken from %s" % [unparse(s.targets[0]) for s in st],
